@@ -154,6 +154,7 @@ def run_assignment(args):
                 body, pre=[], max_paths=max_paths, backend='inproc', decide_timeout=10):
             out['paths'] += 1
             out['queries'] += c.decision_queries
+            out['solver_seconds'] = out.get('solver_seconds', 0.0) + c.decision_seconds
             removed = [k for k in before_data if k not in rel.data]
             out['max_removed'] = max(out['max_removed'], len(removed))
             out['removed_patterns'].add(tuple(removed))
@@ -328,6 +329,7 @@ def main(report, tier, seed, workers, calibrate=False):
         name = 'cleanup_cache[' + ','.join(r['kinds']) + ']'
         total_paths += r['paths']
         total_q += r['queries']
+        solver.STATS.seconds += r.get('solver_seconds', 0.0)
         verdict = 'unsat'
         if r['inconclusive']:
             verdict = 'unknown'
